@@ -270,6 +270,8 @@ func Event(name string, kv ...string) {
 	if h := handler.Load(); h != nil {
 		_ = (*h)("event", name, kv)
 	}
+	// plan rules (delay, sig, kill, pause) may also be attached to events
+	_ = apply("event", name, kv)
 }
 
 // Count increments a named operation counter.
